@@ -20,17 +20,18 @@ CONSTANTS Waiters,     \* Wait call identities, each with its own context
           MaxCounter,
           Depth        \* number of driver steps per behaviour
 
-VARIABLES counter, blocked, done, started, running, launched, hist
+VARIABLES counter, blocked, done, started, running, launched, hist, over
 
-vars == <<counter, blocked, done, started, running, launched, hist>>
-view == <<counter, blocked, done, started, running, launched>>
+vars == <<counter, blocked, done, started, running, launched, hist, over>>
+view == <<counter, blocked, done, started, running, launched, over>>
 
 Init == /\ counter = 0 /\ blocked = {} /\ done = {} /\ started = {}
-        /\ running = {} /\ launched = {} /\ hist = <<>>
+        /\ running = {} /\ launched = {} /\ hist = <<>> /\ over = FALSE
 
 Obs == [blocked |-> blocked', num |-> counter']
-Rec(op, arg, panic) == hist' = Append(hist, [op |-> op, arg |-> arg, panic |-> panic,
-                                             blocked |-> blocked', num |-> counter'])
+Rec(op, arg, panic) == /\ hist' = Append(hist, [op |-> op, arg |-> arg, panic |-> panic,
+                                                blocked |-> blocked', num |-> counter', manual |-> 0])
+                       /\ over' = FALSE
 
 Release(c, b) == IF c = 0 THEN {} ELSE b
 
@@ -104,12 +105,26 @@ WindowDone(w) == /\ w \notin started /\ w \notin done /\ Manual > 0
                  /\ UNCHANGED <<done, running, launched>>
                  /\ Rec("window-done", w, FALSE)
 
-Step == \/ \E w \in Waiters : StartWait(w) \/ Cancel(w) \/ WindowCancel(w) \/ WindowDone(w)
+\* Launch / DoTimes / StartGroup with a worker context that is ALREADY cancelled.  C14 only says that they
+\* "account for exactly the goroutines they start": an implementation may start the operations regardless
+\* (the pinned one does) or skip them, but the counter must grow by exactly the number started.  The spec
+\* therefore fixes no outcome; the record carries the counter before the call (num) and its client-added
+\* part (manual), the harness counts the operations that really arrived in their gate (k) and demands
+\* Num() = num + k, and - after releasing them at the end of the behaviour - Num() = manual.  Because the
+\* outcome is not fixed, this is always the last driver step of a behaviour (over).
+DeadLaunch(n) == /\ counter + n <= MaxCounter /\ launched = {}
+                 /\ hist' = Append(hist, [op |-> "launch-dead", arg |-> n, panic |-> FALSE,
+                                          blocked |-> blocked, num |-> counter, manual |-> Manual])
+                 /\ over' = TRUE
+                 /\ UNCHANGED <<counter, blocked, done, started, running, launched>>
+
+Step == \/ \E n \in {1, 2} : DeadLaunch(n)
+        \/ \E w \in Waiters : StartWait(w) \/ Cancel(w) \/ WindowCancel(w) \/ WindowDone(w)
         \/ \E n \in {-2, -1, 1, 2} : Add(n)
         \/ \E j \in Ops : Launch(j) \/ Finish(j)
         \/ DoTimes2
 
-Next == Len(hist) < Depth /\ Step
+Next == Len(hist) < Depth /\ ~over /\ Step
 Spec == Init /\ [][Next]_vars
 
 \* sanity of the abstract spec itself
